@@ -161,7 +161,8 @@ func (p *p2cPicker) buildDoneFunc(c *subConn) func(balancer.DoneInfo) {
 		if success > 0 {
 			// 成功时向上取整：若一律截断，高频调用下每次成功的加分不足 1 会被舍去，而失败每次至少扣 1 分，
 			// 偶有失败的后端得分只降不升，恢复后也无法回升。
-			nSuccess = math.Ceil(nSuccess)
+			// 浮点舍入可能使满分时的加权和略高于满分，向上取整后会变成 1001 且不再回落，故封顶
+			nSuccess = math.Min(math.Ceil(nSuccess), float64(initSuccess))
 		}
 		atomic.StoreUint64(&c.success, uint64(nSuccess))
 
